@@ -31,13 +31,17 @@ def adopt(obj, new):
 
 def find_contract(ex, module, qualname):
     key = '%s:%s' % (module, qualname)
+    view = ex.contract.options.get('view') if ex.contract is not None else None
+    if view and (key + '@' + view) in ex.eng.sidecar.contracts:
+        # the caller reasons about its callees through another view of them (e.g. as opaque stages)
+        key = key + '@' + view
     c = ex.eng.sidecar.contracts.get(key)
     if c is None:
         raise Unsupported('call to %s, which has no contract' % key)
     return key, c
 
 
-def bind_args(ex, c, fdef, args, kw, self_obj, node):
+def bind_args(ex, c, fdef, args, kw, self_obj, node, partial=False):
     """callee parameter name -> actual SV, following the real signature"""
     names = [a.arg for a in fdef.args.args]
     defaults = fdef.args.defaults
@@ -64,6 +68,10 @@ def bind_args(ex, c, fdef, args, kw, self_obj, node):
         if nm not in bound:
             if nm not in dmap:
                 raise Unsupported('missing argument %s for %s' % (nm, fdef.name))
+            if partial:
+                # may also come through **kwargs: which of the two is not modelled
+                bound[nm] = V(fresh('maybe_' + nm, Val))
+                continue
             d = dmap[nm]
             if isinstance(d, ast.Constant):
                 bound[nm] = ex.ev_Constant(d)
@@ -95,8 +103,15 @@ def call_contract(ex, module, qualname, argskw, node, self_obj=None):
             module, qualname = key.split(':')
     mod = ex.eng.repo.module(module)
     fdef = mod.func(qualname)
-    bound = bind_args(ex, c, fdef, args, kw, self_obj, node)
+    kw = dict(kw)
+    splat = kw.pop('**', None)
+    bound = bind_args(ex, c, fdef, args, kw, self_obj, node, partial=splat is not None)
     cnames = [p for p, _ in c.params]
+    if '__kwargs__' in cnames:
+        bound['__kwargs__'] = splat if splat is not None else V(VNone)
+        cnames = [p for p in cnames if p != '__kwargs__']
+    elif splat is not None:
+        raise Unsupported('**kwargs passed to %s, whose contract has no __kwargs__ parameter' % key)
     if cnames != [a.arg for a in fdef.args.args] + ([fdef.args.vararg.arg] if fdef.args.vararg else []):
         raise Unsupported('signature of %s differs from its contract' % key)
     sub = Exec(ex.eng, mod, None, spec_mode=True)
@@ -264,7 +279,7 @@ def verify_function(eng, key, c, fdef=None, module=None):
             body = [s for s in fdef.body
                     if not (isinstance(s, ast.Expr) and isinstance(s.value, ast.Constant))]
             sig = [a.arg for a in fdef.args.args] + ([fdef.args.vararg.arg] if fdef.args.vararg else [])
-            if sig != [p for p, _ in c.params]:
+            if sig != [p for p, _ in c.params if p != '__kwargs__']:
                 raise Unsupported('signature %r differs from the contract %r' % (sig, [p for p, _ in c.params]))
             if fdef.args.kwonlyargs or fdef.args.kwarg:
                 raise Unsupported('keyword-only / ** parameters')
